@@ -14,7 +14,7 @@
    xpub-prefixed private blobs (and script contracts with unknown opcodes have no parseable text, implementation level). *)
 From Coq Require Import List NArith ZArith String Bool.
 From Coq Require Import Strings.Byte.
-From PV Require Import Base.Bytes Base.Outcome Gen.GenParsePrefixes Model.ParseText Proofs.ParseTextP.
+From PV Require Import Base.Bytes Base.Outcome Gen.GenParsePrefixes Model.ParseText Proofs.ParseTextP Proofs.ParseTextK1.
 Import ListNotations.
 Local Open Scope Z_scope.
 
@@ -330,15 +330,34 @@ Theorem C18_sec_in_range : forall modsqrt net s pt c,
 Proof. exact sec_in_range. Qed.
 Print Assumptions C18_sec_in_range.
 
-(* keys returned by public_pair re-serialise to a SEC text that sec() parses to the same key, PROVIDED the
-   square-root oracle is exact (sqrt_exact: a premise about numbers, true of pow(a, (p+1)/4, p) for the prime
-   p = 3 mod 4; primality of p is not proved here, so it stays a visible premise) *)
+(* keys returned by public_pair re-serialise to a SEC text that sec() parses to the same key, for EVERY square-root
+   oracle that is exact (sqrt_exact: for a curve point (x, y) in range it returns y or p - y, never 0).  The generic
+   statement is kept; the premise is discharged below for the square root pycoin computes. *)
 Theorem C18_reserialize_public_pair : forall modsqrt, sqrt_exact modsqrt ->
   forall int10 int16 mulG net s o,
   public_pair int10 int16 mulG modsqrt net s = Ret (Some o) ->
   exists t, public_key_text net o = Ret t /\ sec modsqrt net t = Ret (Some o).
 Proof. exact public_pair_reserialize. Qed.
 Print Assumptions C18_reserialize_public_pair.
+
+(* the same with modsqrt := pow(a, (p+1)//4, p) on the curve prime of the model (= secp256k1's field prime, by
+   reflexivity against Gen/GenCurveC10.v) and NO premise: sqrt_exact is proved from the primality of p (Pocklington
+   certificate, Proofs/CurvePrimesC10.v), Fermat's little theorem (Proofs/FermatC10.v), p = 3 mod 4
+   ((a^((p+1)/4))^2 = a * a^((p-1)/2) = a for a residue a) and "no point of secp256k1 has y = 0" (C10) *)
+Theorem C18_sqrt_exact_secp256k1 : sqrt_exact modsqrt_real.
+Proof. exact sqrt_exact_secp256k1. Qed.
+Print Assumptions C18_sqrt_exact_secp256k1.
+
+Theorem C18_reserialize_public_pair_secp256k1 : forall int10 int16 mulG net s o,
+  public_pair int10 int16 mulG modsqrt_real net s = Ret (Some o) ->
+  exists t, public_key_text net o = Ret t /\ sec modsqrt_real net t = Ret (Some o).
+Proof. exact public_pair_reserialize_secp256k1. Qed.
+Print Assumptions C18_reserialize_public_pair_secp256k1.
+
+(* modsqrt_real is the modular exponentiation, and the model's prime is C10's k1_p *)
+Example C18_modsqrt_real_is_pow : (forall a, modsqrt_real a = (a ^ ((curve_p + 1) / 4)) mod curve_p) /\
+  curve_p = GenCurveC10.k1_p /\ curve_a = GenCurveC10.k1_a /\ curve_b = GenCurveC10.k1_b.
+Proof. split. exact modsqrt_real_spec. exact curve_is_k1. Qed.
 
 (* ---- electrum wallets: as_text() = "E:" + hex parses back through the entry point that produced the wallet ---- *)
 Theorem C18_reserialize_electrum : forall stretch mulG net s o,
